@@ -102,6 +102,12 @@ bool run(const Case &c, std::string &msg) {
             if (DEC[c.cons](back.p, &bl, nullptr, cb.p, ml + T, adp, al, nb.p, kb.p) != 0) FAIL("%s decrypt rejected its own ciphertext (mlen %zu, adlen %zu)", N, ml, al);
             if (bl != ml || back.get() != m) FAIL("%s decrypt did not return the original message / length", N);
             if (ENC[c.cons](cb.p, nullptr, mb.p, ml, adp, al, nullptr, nb.p, kb.p) != 0 || cb.get() != want) FAIL("%s encrypt with clen_p == NULL differs", N);
+            // the decrypt call forms with optional outputs left out: no length output, and no message output at all (verify-only)
+            XBuf back2(ml, 3);
+            if (DEC[c.cons](back2.p, nullptr, nullptr, cb.p, ml + T, adp, al, nb.p, kb.p) != 0 || back2.get() != m) FAIL("%s decrypt with mlen_p == NULL disagrees with the full form (mlen %zu, adlen %zu)", N, ml, al);
+            bl = 999;
+            if (DEC[c.cons](nullptr, &bl, nullptr, cb.p, ml + T, adp, al, nb.p, kb.p) != 0) FAIL("%s decrypt with m == NULL (verify only) rejected a ciphertext that the decrypting form accepts (mlen %zu, adlen %zu)", N, ml, al);
+            if (DEC[c.cons](nullptr, nullptr, nullptr, cb.p, ml + T, adp, al, nb.p, kb.p) != 0) FAIL("%s decrypt with m == NULL and mlen_p == NULL rejected a genuine ciphertext (mlen %zu, adlen %zu)", N, ml, al);
         }
         {   // detached
             XBuf cb(ml, 5), tb(T, 9); unsigned long long tl = 777;
@@ -110,6 +116,7 @@ bool run(const Case &c, std::string &msg) {
             if (!eq(N, "encrypt_detached ciphertext", cb.get(), ct, msg) || !eq(N, "encrypt_detached tag", tb.get(), tag, msg)) return false;
             XBuf back(ml, 7);
             if (DECD[c.cons](back.p, nullptr, cb.p, ml, tb.p, adp, al, nb.p, kb.p) != 0 || back.get() != m) FAIL("%s decrypt_detached did not return the original message", N);
+            if (DECD[c.cons](nullptr, nullptr, cb.p, ml, tb.p, adp, al, nb.p, kb.p) != 0) FAIL("%s decrypt_detached with m == NULL (verify only) rejected a genuine ciphertext (mlen %zu, adlen %zu)", N, ml, al);
         }
         if (c.cons == AESGCM) {   // precomputed key forms
             crypto_aead_aes256gcm_state *st = (crypto_aead_aes256gcm_state *) aligned_alloc(64, (sizeof(crypto_aead_aes256gcm_state) + 63) / 64 * 64);
@@ -119,6 +126,8 @@ bool run(const Case &c, std::string &msg) {
             else if (crypto_aead_aes256gcm_decrypt_afternm(back.p, &bl, nullptr, cb.p, ml + T, adp, al, nb.p, st) != 0 || bl != ml || back.get() != m) { ok = false; why = "decrypt_afternm"; }
             else if (crypto_aead_aes256gcm_encrypt_detached_afternm(cd.p, tb.p, &tl, mb.p, ml, adp, al, nullptr, nb.p, st) != 0 || tl != T || cd.get() != ct || tb.get() != tag) { ok = false; why = "encrypt_detached_afternm"; }
             else if (crypto_aead_aes256gcm_decrypt_detached_afternm(back2.p, nullptr, cd.p, ml, tb.p, adp, al, nb.p, st) != 0 || back2.get() != m) { ok = false; why = "decrypt_detached_afternm"; }
+            else if (crypto_aead_aes256gcm_decrypt_afternm(nullptr, nullptr, nullptr, cb.p, ml + T, adp, al, nb.p, st) != 0) { ok = false; why = "decrypt_afternm (m == NULL, verify only)"; }
+            else if (crypto_aead_aes256gcm_decrypt_detached_afternm(nullptr, nullptr, cd.p, ml, tb.p, adp, al, nb.p, st) != 0) { ok = false; why = "decrypt_detached_afternm (m == NULL, verify only)"; }
             free(st);
             if (!ok) FAIL("aes256gcm %s disagrees with the one-shot form / specification (mlen %zu adlen %zu)", why.c_str(), ml, al);
         }
